@@ -43,6 +43,8 @@ def run_check(pid, repo, tier="quick", seed="1", timeout=1800):
     env = dict(os.environ)
     env["VERIF_REPO"] = repo
     env["VERIF_SEED"] = seed
+    env["VERIF_EVIDENCE_DIR"] = os.path.join(repo, "_evidence")
+    env["VERIF_REPLAY_DIR"] = os.path.join(repo, "_replays")
     t0 = time.time()
     p = subprocess.run([os.path.join(VERIF, "check"), pid, "--tier", tier], cwd=VERIF, env=env,
                        stdout=subprocess.PIPE, stderr=subprocess.STDOUT, text=True, timeout=timeout)
